@@ -441,11 +441,10 @@ def h_shape(dst, shape, span, pin, tight=False, anchor="default"):
         pxs = max(sx, sy) / shape
         prove("square_pixels_from_the_longest_side", And(ex(A.a) == pxs, ex(A.e) == -pxs))
         longest = symx.m_max(out.shape.x, out.shape.y) if not symx.concrete_mode() else max(out.shape.x, out.shape.y)
+        prove("longest_side_has_that_many_pixels", longest == shape)
         if tight:
-            prove("longest_side_has_that_many_pixels", longest == shape)
             prove("tight_result_sits_on_the_footprint", And(x0 == L, y0 == T))
         else:
-            prove("longest_side_has_that_many_pixels_or_one_more", Or(longest == shape, longest == shape + 1))
             prove("displaced_less_than_a_pixel", And(L - x0 < pxs * (1 + ex(tol)), x0 - L <= ex(tol) * pxs, y0 - T < pxs * (1 + ex(tol)), T - y0 <= ex(tol) * pxs))
         return
     ny, nx = shape
@@ -733,7 +732,7 @@ OBLIGATIONS = [
        functions=FUNCS + ("odc.geo.geobox.GeoBox.center_pixel",), bounds="source pixel size, requested resolution, centre-pixel span and fitted scale from grids; footprint box, source origin and shape, anchor fraction symbolic; one axis at a time",
        stubs=("vertex-list geometry with prepared to_crs responses", "get_scale_at_point / native_pix_transform recorded"), **COMMON),
     Ob("E4_shape", h_shape, _shape_params,
-       descr="explicit shape: exactly that shape (an integer: that longest side, or one more when snapped), pixel = span/shape, displaced from the footprint by < 1 pixel (not at all when tight); the resolution argument is ignored",
+       descr="explicit shape: exactly that shape (an integer: that longest side, snapped or not), pixel = span/shape, displaced from the footprint by < 1 pixel (not at all when tight); the resolution argument is ignored",
        functions=FUNCS, bounds="shape and footprint span from a grid, footprint position symbolic", stubs=("vertex-list geometry with prepared to_crs responses",), **COMMON),
     Ob("E5_bad_resolution", h_bad_resolution, fixed(), descr="an unknown resolution keyword is refused with ValueError", functions=("odc.geo.overlap.compute_output_geobox",), **COMMON),
     Ob("E6_entry_points", h_entry_points, fixed(dict(entry="GeoBox.to_crs"), dict(entry="odc.output_geobox")),
